@@ -198,6 +198,13 @@ def monitors(sm: dict) -> list:
             still_owned = owned in owned_now
             if not s['closed'] and not still_owned:
                 viols.append((f'not-closed-on-leave:{a}', f'left {a} for IDLE at t={t} but connection {owned} was never closed'))
+    # (6) RFC 4271 event 18 (TcpConnectionFails): a session cannot stay in a connected state once its transport is
+    # gone - at the end of the execution a peer in OPENSENT/OPENCONFIRM/ESTABLISHED owns an open connection
+    for p in sm['peers']:
+        if p['fsm'] in ('OPENSENT', 'OPENCONFIRM', 'ESTABLISHED'):
+            s = socks.get(p['owned'])
+            if s is None or s['closed']:
+                viols.append((f'connected-state-without-transport:{p["fsm"]}', f'the peer is {p["fsm"]} at the end of the run but owns no open connection (owned={p["owned"]})'))
     # (5) API: up and down alternate
     up = False
     for line in sm['api'].splitlines():
